@@ -62,6 +62,11 @@ namespace pika::threads::detail {
 
         execution::thread_schedule_hint schedulehint{
             static_cast<std::int16_t>(get_thread_id_data(thrd)->get_last_worker_thread_num())};
+#if defined(PIKA_VERIF)
+        PIKA_VERIF_POINT(1001, get_thread_id_data(thrd),
+            static_cast<std::uint64_t>(static_cast<std::uint16_t>(schedulehint.hint)),
+            static_cast<std::uint64_t>(current_state.verif_raw()));
+#endif
 
         // just retry, set_state will create new thread if target is still active
         error_code ec(throwmode::lightweight);    // do not throw
